@@ -123,7 +123,47 @@ def coarse_threshold_rings():
             yield dict(kind="solver", game=game, theta=theta, sprune=sprune, known=dict(pstar=vals, T=F(4 * N, 3) + 2))
 
 
+def finals_into_dead():
+    """Planted: a final state that is NOT absorbing and whose successors are all dead (value 0), next to an absorbing
+    final; the conditioned game empties such a state, its reported probability stays exactly 1 in both modes."""
+    for init_owner in (P1, P2, PR):
+        for fin_owner in (PR, P1, P2):
+            for width in (1, 2):
+                # 0 initial, 1/2 lotteries, 3 final (not absorbing), 4 final (absorbing), 5/6 sinks
+                first = [(0.5, 1), (0.5, 2)] if init_owner == PR else [("a", 1), ("b", 2)]
+                targets = [5, 6][:width]
+                out = [(1 / width, t) for t in targets] if fin_owner == PR else [("xy"[i], t) for i, t in enumerate(targets)]
+                g = dict(rewards=[0, 1, 2, 0, 0, 0, 0], players=[init_owner, PR, PR, fin_owner, PR, PR, PR],
+                         transition_list=[first, [(0.5, 3), (0.5, 5)], [(0.25, 4), (0.75, 6)], out, [(1, 4)], [(1, 5)],
+                                          [(1, 6)]],
+                         final_states=[3, 4])
+                v0 = {P1: 0.5, P2: 0.25, PR: 0.375}[init_owner]
+                for prune in (True, False):
+                    yield dict(kind="final_dead", game=g, prune=prune, expect=[v0, 0.5, 0.25, 1, 1, 0, 0])
+
+
+def check_final_dead(case, v):
+    """Acyclic by construction, so the values are exact after a handful of sweeps; compared with the hand-derived ones."""
+    from harness.sut import solve as sut_solve
+    game, prune = case["game"], case["prune"]
+    v.nontrivial = True
+    v.cls("non_absorbing_final", "final_with_only_dead_successors", "api_solve", "prune" if prune else "no_prune")
+    o = sut_solve(game, prune, sweeps=2000)
+    lab = f"solve(prune={prune}) on {game}"
+    if o.kind != "ok":
+        v.fail("solver-raises", f"{lab}: {o.brief()}", sig=o.kind)
+        return v
+    for s, (ph, want) in enumerate(zip(o.result[3], case["expect"])):
+        if want in (0, 1):
+            if ph != want or isinstance(ph, bool):
+                v.fail("final-not-1" if want == 1 else "unreaching-not-0", f"{lab}: state {s} reports {ph!r}, must be {want}")
+        elif not isinstance(ph, (int, float)) or abs(ph - want) > 1e-9:
+            v.fail("value-differs", f"{lab}: state {s} reports {ph!r}, exact value {want}")
+    return v
+
+
 def planted_cases():
+    yield from finals_into_dead()
     yield from very_slow_reach()
     yield from corridor_cases()
     yield from coarse_threshold_rings()
@@ -611,6 +651,8 @@ def check_case(case):
         return check_board(case, v)
     if case["kind"] == "medium":
         return check_medium(case, v)
+    if case["kind"] == "final_dead":
+        return check_final_dead(case, v)
     if case["kind"] == "siblings":
         v.cls("siblings_" + case["how"])
         for g in (case["first"], case["second"]):
